@@ -27,7 +27,6 @@ from ufl.domain import extract_unique_domain, sort_domains
 from ufl.equation import Equation
 from ufl.integral import Integral
 from ufl.utils.counted import Counted
-from ufl.utils.sorting import sorted_by_count
 
 if typing.TYPE_CHECKING:
     from ufl.classes import AbstractDomain
